@@ -9,10 +9,12 @@ whose atoms are not all connected."
 Model: `Model/C10Missing.lean` (`find_connecting_edges`, `find_missing_edges`, `_check_molecules`).
 The first sentence is proved (`C10_exact`, `C10_missing_eq_spec`) under the invariant the pipeline
 maintains — the fragment graph stored on a residue node is a subgraph of the molecule on that residue's
-atoms and different residues own different atoms.  The second sentence is FALSE for the code as
-written: `_check_molecules` tests the connectivity of the RESIDUE graph, `C10_gate` says so and
-`C10_gate_atoms_counterexample` exhibits a molecule whose atoms are not all connected and which is not
-refused (replayed on the real `gen_coords`, see notes/C10_findings.md).
+atoms and different residues own different atoms (the harness checks the invariant on the real objects
+of every case).  The second sentence holds in one direction only: `_check_molecules` tests the
+connectivity of the RESIDUE graph (`C10_gate`, with `C10_isConnected_iff` saying that the breadth-first
+stand-in for `nx.is_connected` is graph connectivity); it refuses only molecules with disconnected
+atoms (`C10_gate_sound`), but `C10_gate_atoms_counterexample` exhibits a molecule whose atoms are not
+all connected and which is not refused (replayed on the real `gen_coords`, notes/C10_findings.md).
 -/
 import PolyplyVerif.Model.C10Missing
 import PolyplyVerif.Proofs.C10Missing
@@ -94,7 +96,35 @@ theorem C10_gate (mols : List Mol) :
 theorem C10_within_iff (es : List (Nat × Nat)) (a b k : Nat) : b ∈ within es a k ↔ WalkLe es a b k :=
   mem_within_iff es a b k
 
-/-- The property's second sentence does not hold for the code: atom 1 (second atom of residue 1) is
+/-- `isConnected` (the stand-in for `nx.is_connected`) is graph connectivity: the graph has a node and
+every node is reachable from the first one by a walk of ANY length (with `n` nodes, `n` breadth-first
+levels reach everything reachable — proved by the grow-or-closed argument, no bound on `n`). -/
+theorem C10_isConnected_iff (nodes : List Nat) (es : List (Nat × Nat))
+    (hes : ∀ e ∈ es, e.1 ∈ nodes ∧ e.2 ∈ nodes) :
+    isConnected nodes es = true ↔ ∃ a rest, nodes = a :: rest ∧ ∀ b ∈ nodes, ∃ k, WalkLe es a b k :=
+  isConnected_iff nodes es hes
+
+/-- **C10_gate_sound** — one half of the property's second sentence: `_check_molecules` refuses ONLY
+molecules whose atoms are not all connected (a walk between atoms projects to a walk between their
+residues).  For well-formed molecules (distinct atom keys, edges between atoms of the molecule). -/
+theorem C10_gate_sound (mols : List Mol) (hwf : ∀ m ∈ mols, m.WF) :
+    checkMolecules mols = true → specRaises mols = true := by
+  unfold checkMolecules specRaises
+  simp only [List.any_eq_true, Bool.not_eq_true']
+  rintro ⟨m, hm, hdis⟩
+  refine ⟨m, hm, ?_⟩
+  rw [Bool.eq_false_iff]
+  intro hcon
+  rw [resConnected_of_atomConnected m (hwf m hm) hcon] at hdis
+  cases hdis
+
+example : (⟨[(0, 1, "A"), (1, 1, "A"), (2, 2, "A")], [(0, 1), (1, 2)]⟩ : Mol).WF := by
+  refine ⟨by decide, ?_⟩
+  intro e he
+  simp only [List.mem_cons, List.mem_nil_iff, or_false] at he
+  rcases he with h | h <;> subst h <;> decide
+
+/-- The other half fails — the property's second sentence does not hold for the code: atom 1 (second atom of residue 1) is
 bonded to nothing, so the atoms are not all connected (`specRaises`), yet the residue graph 1–2 is
 connected and the gate lets the molecule pass. -/
 theorem C10_gate_atoms_counterexample :
